@@ -167,9 +167,12 @@ def write_image(ctx, spec, tag):
     from astropy.io import fits
     img, n = build_image(spec)
     path = os.path.join(ctx.tmpdir(), f'c03_{tag}.fits')
+    data = img
+    if spec.get('cube'):     # a 3-D file: plane 0 is something else, plane 1 (cube_index=1) is the image
+        data = np.stack([np.flipud(img) * np.float32(0.7), img])
     with warnings.catch_warnings():
         warnings.simplefilter('ignore')
-        fits.PrimaryHDU(img, make_header(n, ra0=spec.get('ra0', 150.0), dec0=spec.get('dec0', -30.0),
+        fits.PrimaryHDU(data, make_header(n, ra0=spec.get('ra0', 150.0), dec0=spec.get('dec0', -30.0),
                                          **{k: (tuple(v) if k == 'crpix_off' else v) for k, v in spec.get('hdr', {}).items()})
                         ).writeto(path, overwrite=True)
     return path, img
@@ -265,6 +268,7 @@ class Recorder:
                 raise e
             entry['lm'] = rec._last_lm
             entry['n_out'] = len([s for s in out if hasattr(s, 'source')])
+            entry['out'] = list(out)
             return out
 
         def _refit_islands(self_, group, stage, outerclip=None, istart=0):
@@ -292,6 +296,7 @@ class Recorder:
 def real_opts(opts):
     """JSON-able options -> keyword arguments (`beam_override` = [a, b, pa] in degrees -> beam=Beam(...))"""
     o = dict(opts)
+    o.pop('cube', None)
     if 'beam_override' in o:
         from AegeanTools.wcs_helpers import Beam
         o['beam'] = Beam(*o.pop('beam_override'))
@@ -305,7 +310,7 @@ def run_blind(path, opts, record=True):
         sf = SourceFinder(log=quiet_log())
         with warnings.catch_warnings():
             warnings.simplefilter('ignore')
-            out = sf.find_sources_in_image(path, cores=1, nonegative=False, nopositive=False, **real_opts(opts))
+            out = sf.find_sources_in_image(path, cores=1, **dict(dict(nonegative=False, nopositive=False), **real_opts(opts)))
     finally:
         if rec:
             rec.remove()
@@ -319,7 +324,17 @@ def run_prior(path, catalogue, opts, record=True):
         sf = SourceFinder(log=quiet_log())
         with warnings.catch_warnings():
             warnings.simplefilter('ignore')
-            out = sf.priorized_fit_islands(path, catalogue=copy.deepcopy(catalogue), cores=1, **real_opts(opts))
+            mine = copy.deepcopy(catalogue)     # the caller-owned list of source objects handed to the API
+            out = sf.priorized_fit_islands(path, catalogue=mine, cores=1, **real_opts(opts))
+            # the input catalogue is the caller's: same objects, same order, same values afterwards
+            sf._verif_mutated = None
+            if len(mine) != len(catalogue):
+                sf._verif_mutated = f"the list has {len(mine)} entries, had {len(catalogue)}"
+            else:
+                d = diff_canon(canon(mine), canon(catalogue))
+                if d is None and [s.uuid for s in mine] != [s.uuid for s in catalogue]:
+                    d = "uuids changed"
+                sf._verif_mutated = d
     finally:
         if rec:
             rec.remove()
@@ -413,7 +428,7 @@ class Judge:
         self.ctx.fail(kind, c, detail, sig)
 
 
-def judge_rows(J, comps, mode):
+def judge_rows(J, comps, mode, filtered=False):
     """Spec on every component row + catalogue-level id/uuid clauses"""
     ctx = J.ctx
     c17 = c17_fixed()
@@ -453,7 +468,7 @@ def judge_rows(J, comps, mode):
     pairs = [(int(s.island), int(s.source)) for s in comps]
 
     def hid(o):
-        if o == 'ok':
+        if o == 'ok' or (o == 'gap' and filtered):    # a polarity filter may remove components of a mixed-sign island
             return
         dups = sorted({p for p in pairs if pairs.count(p) > 1})[:6] if len(pairs) < 4000 else []
         J.fail('spec', f"{mode}: (island, source) pairs are not {'unique' if o == 'dup' else 'numbered 0..n-1'}: "
@@ -467,11 +482,36 @@ def judge_rows(J, comps, mode):
     J.ask("uu " + " ".join(str(s.uuid).replace(' ', '_') for s in comps), huu)
 
 
-def judge_blind(J, out, rec, sf, opts, label):
+def independent_flood(truth, inner, outer_eff):
+    """islands by an independent flood fill at the EFFECTIVE clips: |img - bkg| / rms >= outer_eff, 8-connected,
+    kept when one of its pixels exceeds inner.  Returns (labels, {label: (npix, [xmin, xmax, ymin, ymax])})"""
+    from scipy.ndimage import label as nd_label, find_objects as nd_find
+    img, rms = truth
+    snr = np.abs(img) / np.float32(rms)
+    a = np.isfinite(snr) & (snr >= outer_eff)
+    lab, n = nd_label(a, structure=np.ones((3, 3)))
+    info = {}
+    for k, sl in enumerate(nd_find(lab), start=1):
+        own = lab[sl] == k
+        if np.any(snr[sl][own] > inner):
+            info[k] = (int(own.sum()), [sl[0].start, sl[0].stop, sl[1].start, sl[1].stop])
+    return lab, info
+
+
+def judge_blind(J, out, rec, sf, opts, label, truth=None):
     ctx = J.ctx
     comps = [s for s in out if hasattr(s, 'source')]
     isles = [s for s in out if not hasattr(s, 'source')]
-    judge_rows(J, comps, label)
+    filtered = bool(opts.get('nopositive') or opts.get('nonegative'))
+    judge_rows(J, comps, label, filtered)
+    # --- the polarity filters keep exactly the rows of the other sign, in order
+    produced = [s for f in rec.fits for s in (f.get('out') or [])]
+    keep = [s for s in produced if not ((s.peak_flux > 0 and opts.get('nopositive')) or (s.peak_flux < 0 and opts.get('nonegative')))]
+    if len(keep) != len(out) or any(x is not y for x, y in zip(keep, out)):
+        J.fail('spec', f"{label}: the catalogue ({len(out)} rows) is not what the island fits produced ({len(produced)} rows) minus the "
+               f"rows removed by nopositive={opts.get('nopositive', False)} / nonegative={opts.get('nonegative', False)} ({len(keep)} rows)",
+               dict(site='find_sources_in_image', clause='polarity-filter'))
+    all_comps = [s for s in produced if hasattr(s, 'source')]
     # --- islands that were dropped instead of flagged
     for isle in rec.dropped:
         J.fail('spec', f"{label}: island {isle} raised AegeanNaNModelError inside the fit and was dropped from the catalogue "
@@ -482,7 +522,7 @@ def judge_blind(J, out, rec, sf, opts, label):
     if want_ids != list(range(1, len(want_ids) + 1)):
         J.fail('corr', f"{label}: islands handed to _fit_island are numbered {want_ids[:8]}…, the model numbers them 1..N",
                dict(site='numbering', what='blind-isle-num'))
-    pairs = [(int(s.island), int(s.source)) for s in comps]
+    pairs = [(int(s.island), int(s.source)) for s in all_comps]
 
     def hnum(o):
         model = o.split()[1:]
@@ -493,7 +533,7 @@ def judge_blind(J, out, rec, sf, opts, label):
     J.ask("blind " + " ".join(str(n) for n in ncomps), hnum)
     # --- flags vs model
     byisle = {}
-    for s in comps:
+    for s in all_comps:
         byisle.setdefault(int(s.island), []).append(s)
     ms = opts.get('max_summits')
     for f in rec.fits:
@@ -521,6 +561,9 @@ def judge_blind(J, out, rec, sf, opts, label):
     if isles:
         rms = sf.global_data.rmsimg
         fit_by = {f['isle']: f for f in rec.fits}
+        inner = opts.get('innerclip', 5)
+        outer_eff = min(opts.get('outerclip', 4), inner)
+        flood = independent_flood(truth, inner, outer_eff) if truth is not None else None
         for isl in isles:
             f = fit_by.get(int(isl.island))
             if f is None:
@@ -533,6 +576,24 @@ def judge_blind(J, out, rec, sf, opts, label):
             m = np.isfinite(idata) & (np.abs(np.nan_to_num(idata)) - oc * box > 0)
             xs, ys = np.where(m)
             ncomp_rows = len(byisle.get(int(isl.island), []))
+            if flood is not None:
+                # the island row against an independent flood fill of the image at the effective clips
+                ctx.count('island-rows-vs-independent-flood')
+                try:
+                    px, py = sf.global_data.wcshelper.sky2pix([isl.ra, isl.dec])
+                    k = int(flood[0][int(round(px - 1)), int(round(py - 1))])
+                except Exception:  # noqa: BLE001
+                    k = 0
+                want_f = flood[1].get(k)
+                got_f = (int(isl.pixels), [int(v) for v in isl.extent])
+                if want_f is None or got_f != (want_f[0], want_f[1]) or (int(isl.x_width), int(isl.y_width)) != \
+                        (got_f[1][1] - got_f[1][0], got_f[1][3] - got_f[1][2]):
+                    J.fail('spec', f"{label}: island row {isl.island} has pixels={isl.pixels} extent={got_f[1]} widths=({isl.x_width},"
+                           f"{isl.y_width}); an independent flood fill at seed {inner} / flood {outer_eff} (innerclip={opts.get('innerclip', 5)}, "
+                           f"outerclip={opts.get('outerclip', 4)}) gives {want_f} for the island containing the row's position",
+                           dict(site='island-row', clause='independent-flood',
+                                outer_gt_inner=bool(opts.get('outerclip', 4) > opts.get('innerclip', 5))),
+                           dict(island=int(isl.island)))
             trip = " ".join(f"{x + x0} {y + y0} {okey(idata[x, y])}" for x, y in zip(xs, ys))
 
             def peak_position(isl, f, idata, m_px, m_py):
@@ -865,6 +926,82 @@ def scenario_injected_nan(ctx, mode='blind'):
     ctx.case(case, nontrivial_key=('injected-nan-model', mode))
 
 
+def option_product(ctx):
+    """rarely used option combinations of the blind finder as a product over small sets"""
+    clips = [(5, 4), (4, 6), (5, 5), (6, 3.5)]            # incl. outerclip > innerclip (clamped by the code) and equal
+    summits = [None, 0, 1, 2]
+    isl = [True, False]
+    blank = [False, True]
+    pol = [dict(), dict(nopositive=True), dict(nonegative=True)]
+    cube = [False, True]
+    combos = []
+    k = 0
+    for c in clips:
+        for m in summits:
+            for d in isl:
+                if ctx.quick:   # the other three dimensions cycle, so that every pair of values co-occurs somewhere
+                    combos.append((c, m, d, blank[k % 2], pol[(k // 2 + k) % 3], cube[(k // 3) % 2]))
+                    k += 1
+                else:
+                    for b in blank:
+                        for pp in pol:
+                            for cu in cube:
+                                combos.append((c, m, d, b, pp, cu))
+    return combos
+
+
+def scenario_options(ctx):
+    J = Judge(ctx, dict(scenario='options'))
+    for n, (c, m, d, b, pp, cu) in enumerate(option_product(ctx)):
+        spec = dict(image_spec('grid', 8500 + ctx.seed + n % 3, 3), cube=cu)
+        opts = dict(rms=0.05, bkg=0.0, innerclip=c[0], outerclip=c[1], doislandflux=d, blank=b, **pp)
+        if m is not None:
+            opts['max_summits'] = m
+        if cu:
+            opts['cube_index'] = 1
+        scenario_blind(ctx, f'opt{n}', spec, opts, rerun=False, batch=J)
+        ctx.count('option-product-runs')
+    J.flush()
+
+
+def scenario_reuse(ctx):
+    """one catalogue (a list of source objects, loaded once) refitted twice on an image with another beam: the two
+    runs have identical input, so identical output apart from uuids"""
+    from AegeanTools.source_finder import SourceFinder
+    spec_a = image_spec('grid', 8800 + ctx.seed, 2)
+    spec_b = dict(spec_a, hdr=dict(bmaj=6.0, bmin=4.5, bpa=20.0))
+    forced = dict(rms=0.05, bkg=0.0)
+    opts = dict(forced, stage=1, doregroup=False)
+    case = dict(scenario='reuse-catalogue', mode='priorized', image=spec_b, opts=opts, catalogue_from=spec_a)
+    J = Judge(ctx, case)
+    try:
+        pa, _ = write_image(ctx, spec_a, 'reuseA')
+        pb, _ = write_image(ctx, spec_b, 'reuseB')
+        cat, _, _ = run_blind(pa, forced, record=False)
+        cat = [s for s in cat if hasattr(s, 'source')]
+        outs = []
+        for _ in range(2):
+            sf = SourceFinder(log=quiet_log())
+            with warnings.catch_warnings():
+                warnings.simplefilter('ignore')
+                outs.append(sf.priorized_fit_islands(pb, catalogue=cat, cores=1, **opts))   # the SAME list both times
+    except Exception as e:  # noqa: BLE001
+        J.fail('spec', f"reuse-catalogue: aborted with {type(e).__name__}: {e}",
+               dict(site='priorized_fit_islands', clause='aborts', exc=type(e).__name__))
+        ctx.case(case)
+        return
+    d = diff_canon(canon(outs[0]), canon(outs[1]))
+    if d:
+        k = next((i for i, (x, y) in enumerate(zip(outs[0], outs[1])) if F(x.a) != F(y.a) or F(x.peak_flux) != F(y.peak_flux)), 0)
+        x, y = outs[0][k], outs[1][k]
+        J.fail('spec', f"reuse-catalogue: the same catalogue list refitted twice on the same image (stage 1) gives different catalogues: {d}; "
+               f"e.g. row ({x.island},{x.source}): a {x.a!r} -> {y.a!r}, b {x.b!r} -> {y.b!r}, peak_flux {x.peak_flux!r} -> {y.peak_flux!r}",
+               dict(site='reproducible', what='history-dependence', clause='same-catalogue-object-twice',
+                    cause='input-catalogue-resized-in-place' if F(x.a) != F(y.a) else 'other'))
+    ctx.count('reuse-catalogue-runs')
+    ctx.case(case, nontrivial_key=('reuse-catalogue', ctx.seed))
+
+
 def scenario_history(ctx, variant, nside=3, seed=None):
     """The "histories" quantifier: a run must not depend on what the process did before.  In ONE process: image A
     (beam 1), then B (same pixels, another beam: through the header or through the beam= override), then A, then B
@@ -874,8 +1011,10 @@ def scenario_history(ctx, variant, nside=3, seed=None):
     cd = 1 / 360.
     forced = dict(rms=0.05, bkg=0.0)
     spec_a = image_spec('grid', seed, nside)
-    if variant == 'header-beam':
+    if variant in ('header-beam', 'same-file'):
         spec_b = dict(spec_a, hdr=dict(bmaj=5.5, bmin=2.6, bpa=-40.0))
+        if variant == 'same-file':       # ... and other pixels, written over the SAME file name between the runs
+            spec_b['seed'] = seed + 1
         opts_b = dict(forced)
     else:
         spec_b = dict(spec_a)
@@ -885,18 +1024,29 @@ def scenario_history(ctx, variant, nside=3, seed=None):
     label = f"history[{variant}]"
     sig = dict(site='reproducible', what='history-dependence', variant=variant)
     try:
-        path_a, _ = write_image(ctx, spec_a, 'histA')
-        path_b, _ = write_image(ctx, spec_b, 'histB')
+        same = variant == 'same-file'
+        path_a, _ = write_image(ctx, spec_a, 'hist' if same else 'histA')
         a1, _, _ = run_blind(path_a, forced, record=False)
+        path_b, _ = write_image(ctx, spec_b, 'hist' if same else 'histB')
         b1, _, _ = run_blind(path_b, opts_b, record=False)
+        if same:
+            write_image(ctx, spec_a, 'hist')
         a2, _, _ = run_blind(path_a, forced, record=False)
+        if same:
+            write_image(ctx, spec_b, 'hist')
         b2, _, _ = run_blind(path_b, opts_b, record=False)
+        if same:
+            write_image(ctx, spec_a, 'hist')
         cat = [s for s in a1 if hasattr(s, 'source')]
         p1 = p2 = pb = None
         if cat:
             popts = dict(forced, stage=3, doregroup=False)
             p1, _, _ = run_prior(path_a, cat, popts, record=False)
+            if same:
+                write_image(ctx, spec_b, 'hist')
             pb, _, _ = run_prior(path_b, cat, dict(opts_b, stage=3, doregroup=False), record=False)
+            if same:
+                write_image(ctx, spec_a, 'hist')
             p2, _, _ = run_prior(path_a, cat, popts, record=False)
     except Exception as e:  # noqa: BLE001
         J.fail('spec', f"{label}: aborted with {type(e).__name__}: {e}", dict(site='find_sources_in_image', clause='aborts',
@@ -922,10 +1072,11 @@ def scenario_history(ctx, variant, nside=3, seed=None):
     ctx.case(case, nontrivial_key=('history', variant, ctx.seed))
 
 
-def scenario_blind(ctx, tag, spec, opts, rerun=True, child=False, roundtrip=False):
+def scenario_blind(ctx, tag, spec, opts, rerun=True, child=False, roundtrip=False, batch=None):
     case = dict(scenario=tag, mode='blind', image=spec, opts={k: v for k, v in opts.items()})
-    J = Judge(ctx, case)
-    path, _ = write_image(ctx, spec, tag)
+    J = Judge(ctx, case) if batch is None else batch.sub(case)
+    path, img = write_image(ctx, spec, tag)
+    truth = (img - np.float32(opts.get('bkg', 0.0)), opts['rms']) if opts.get('rms') else None
     label = f"blind[{tag}]"
     try:
         out, rec, sf = run_blind(path, opts)
@@ -935,14 +1086,15 @@ def scenario_blind(ctx, tag, spec, opts, rerun=True, child=False, roundtrip=Fals
         ctx.case(case)
         return None, path
     comps = [s for s in out if hasattr(s, 'source')]
-    judge_blind(J, out, rec, sf, opts, label)
+    judge_blind(J, out, rec, sf, opts, label, truth)
     if rerun:
         rerun_and_diff(ctx, J, label, 'blind', path, opts, out)
     if child:
         child_run(ctx, J, label, dict(kind='blind', image=spec, opts=opts), out)
     if roundtrip:
         save_roundtrip(ctx, J, label, comps)
-    J.flush()
+    if batch is None:
+        J.flush()
     ctx.count('blind-runs')
     ctx.count('component-rows', len(comps))
     ctx.count('island-rows', len(out) - len(comps))
@@ -964,6 +1116,15 @@ def scenario_prior(ctx, tag, spec, path, inp, opts, rerun=True, child=False, rou
         ctx.case(case)
         return None
     judge_prior(J, out, rec, sf, opts, inp, label)
+    ctx.count('priorized-input-catalogue-checked-for-mutation')
+    if getattr(sf, '_verif_mutated', None):
+        import re
+        mcols = re.search(r'columns \[([0-9, ]*)\]', sf._verif_mutated)
+        only_ab = bool(mcols) and set(int(v) for v in mcols.group(1).split(',')) <= {16, 18}
+        J.fail('spec', f"{label}: priorized_fit_islands modified the caller's input catalogue: {sf._verif_mutated}"
+               + (" (a and b: the sources are resized in place)" if only_ab else ""),
+               dict(site='priorized_fit_islands', what='argument-mutated',
+                    cause='input-catalogue-resized-in-place' if only_ab else 'other'))
     if rerun:
         rerun_and_diff(ctx, J, label, 'prior', path, opts, out, catalogue=inp)
     if child:
@@ -1198,6 +1359,9 @@ def run(ctx):
     scenario_blind(ctx, 'neg-island', dict(kind='pair', seed=0, nside=2), dict(rms=0.05, bkg=0.0, doislandflux=True), rerun=False)
     scenario_history(ctx, 'header-beam')
     scenario_history(ctx, 'beam-override')
+    scenario_history(ctx, 'same-file')
+    scenario_reuse(ctx)
+    scenario_options(ctx)
     scenario_blind(ctx, 'tiny-units', dict(image_spec('grid', 31, 2), scale=1e-15), dict(rms=0.05e-15, bkg=0.0), rerun=False)
 
     range_helpers(ctx)
@@ -1346,6 +1510,10 @@ def replay(ctx, rec):
                         reject=tuple(c['image'].get('reject', ())))
     elif sc == 'injected-nan-model':
         scenario_injected_nan(ctx, c.get('mode', 'blind'))
+    elif sc.startswith('opt') and sc[3:].isdigit():
+        scenario_blind(ctx, sc, c['image'], c['opts'], rerun=False)
+    elif sc == 'reuse-catalogue':
+        scenario_reuse(ctx)
     elif sc.startswith('history-'):
         scenario_history(ctx, sc[len('history-'):], seed=c['image'].get('seed'))
     elif c.get('mode') == 'blind' and sc != 'bane':
